@@ -608,9 +608,9 @@ fn may_drop(path: &Path, config: &DedupeConfig) -> bool {
             .any(|p| p.matches_path(&path.to_path_buf()))
     };
 
-    (config.name_patterns.is_empty() && config.path_patterns.is_empty())
-        || matches_any_name()
-        || matches_any_path()
+    // Both kinds of patterns restrict the set of files, the same as in the `group` command.
+    (config.name_patterns.is_empty() || matches_any_name())
+        && (config.path_patterns.is_empty() || matches_any_path())
 }
 
 impl<P: AsRef<PathAndMetadata>> FileSubGroup<P> {
